@@ -81,6 +81,7 @@ public:
         , m_gbuf(other.m_gbuf)
         , m_fcount(other.m_fcount)
         , m_gcount(other.m_gcount)
+        , m_max_abs_value(other.m_max_abs_value)
         , m_limit(other.m_limit)
     {
     }
@@ -98,8 +99,16 @@ public:
         {
             throw runaway_t{};
         }
-        return raw(x, gx);
+        const auto fx = raw(x, gx);
+        if (std::isfinite(fx) && std::fabs(fx) > m_max_abs_value)
+        {
+            m_max_abs_value = std::fabs(fx);
+        }
+        return fx;
     }
+
+    // largest finite |f| the solver has been shown (counted evaluations only)
+    double max_abs_value() const { return m_max_abs_value; }
 
     // evaluation that is not counted (used by the oracle)
     scalar_t eval(const vector_t& x, vector_t& gx) const
@@ -133,6 +142,7 @@ private:
     mutable vector_t  m_gbuf;
     mutable int64_t   m_fcount{0};
     mutable int64_t   m_gcount{0};
+    mutable double    m_max_abs_value{0.0};
     int64_t           m_limit{0};
 };
 
